@@ -102,9 +102,11 @@ def check(rec):
         if not kind.startswith("lock."):
             continue
         name = ev[5]
-        st = locks.setdefault(name, {"holder": None, "depth": 0, "waiting": [], "req": {}})
+        st = locks.setdefault(name, {"holder": None, "depth": 0, "waiting": [], "req": {},
+                                     "req_time": {}})
         if kind == "lock.req":
             st["req"][actor] = act
+            st["req_time"][actor] = now
             if st["holder"] is not None and st["holder"] != actor or \
                     (st["holder"] is None and st["waiting"]):
                 st["waiting"].append(actor)
@@ -120,10 +122,11 @@ def check(rec):
                         % (actor, name, overtaken))
                 st["waiting"].remove(actor)
             else:
-                if st["req"].get(actor) != act:
-                    bad("suspended-acquire",
-                        "%s had to suspend to acquire %s although it was %s"
-                        % (actor, name, "its own" if st["holder"] == actor else "free"))
+                if st["req_time"].get(actor) != now:
+                    bad("waited-for-free-lock",
+                        "%s asked for %s at t=%r while it was %s but entered only at t=%r"
+                        % (actor, name, st["req_time"].get(actor),
+                           "its own" if st["holder"] == actor else "free", now))
             st["holder"] = actor
             st["depth"] += 1
         elif kind == "lock.leave":
